@@ -128,59 +128,157 @@ Qed.
 
 (* ---------------------------------------------------------------- call sites *)
 
-Lemma to_send_strips : forall p l, to_send false p = Lines l ->
-  (forall x, In x l -> bad_host_line x = false)
+Definition keepf := fun x : line => negb (bad_host_line x).
+
+Lemma filter_keepf_clean : forall l x, In x (filter keepf l) -> bad_host_line x = false.
+Proof. intros l x Hx. apply filter_In in Hx. destruct Hx as [_ Hx]. apply negb_true_iff in Hx. exact Hx. Qed.
+
+(* flag off, something freshly marshalled goes out: then Marshal succeeded, and it is the stripped text *)
+Lemma to_send_strips : forall mok p l, to_send false mok p = Lines l ->
+  mok = true
+  /\ (forall x, In x l -> bad_host_line x = false)
   /\ exists d, p = Some d /\ l = filter (fun x => negb (bad_host_line x)) (marshal d).
 Proof.
-  intros p l H. unfold to_send, strip_lines in H. destruct p as [d|]; [|discriminate].
-  inversion H; subst l. split.
+  intros mok p l H. unfold to_send, to_send_lib, strip_lines_lib, observed_marshal in H.
+  destruct p as [d|]; [|discriminate]. destruct mok; [|discriminate].
+  inversion H; subst l. split; [reflexivity|]. split.
   - intros x Hx. apply (no_local_line_left d x Hx).
   - exists d. split; [reflexivity|apply marshal_strip].
 Qed.
 
-Lemma to_send_original_only_unparsable : forall p, to_send false p = Original -> p = None.
-Proof. intros [d|] H; [discriminate|reflexivity]. Qed.
+(* flag off, the original text goes out: exactly when one of the two library calls failed *)
+Lemma to_send_original_iff : forall mok p, to_send false mok p = Original <-> p = None \/ mok = false.
+Proof.
+  intros mok p. unfold to_send, to_send_lib, strip_lines_lib, observed_marshal.
+  destruct p as [d|]; destruct mok; split; intros H; try reflexivity; try discriminate; auto.
+  destruct H; discriminate.
+Qed.
 
-Lemma to_send_keep : forall p, to_send true p = Original.
+(* under "Marshal succeeded" *)
+Lemma to_send_original_only_unparsable : forall p, to_send false true p = Original -> p = None.
+Proof. intros p H. apply to_send_original_iff in H. destruct H; [assumption|discriminate]. Qed.
+
+Lemma to_send_keep : forall mok p, to_send true mok p = Original.
 Proof. reflexivity. Qed.
 
-Lemma client_site : forall cfg ok p s, client_offer_sent cfg ok p = Some s ->
+(* Marshal failed: the ORIGINAL text is handed to the broker, local host candidates included *)
+Lemma to_send_marshal_failed : forall p, to_send false false p = Original.
+Proof. intros p. apply to_send_original_iff. right. reflexivity. Qed.
+
+Definition leak_witness : sdesc := mkSdesc [0] [mkMsec [1] [mkAttr 2 (Cand Host (Some [10;0;0;1]))]].
+
+Lemma marshal_failure_leaks :
+  to_send false false (Some leak_witness) = Original
+  /\ (exists l, In l (marshal leak_witness) /\ bad_host_line l = true)
+  /\ to_send false true (Some leak_witness) = Lines [mkLine 0 KSession; mkLine 1 KHead].
+Proof.
+  split; [reflexivity|]. split; [|reflexivity].
+  exists (mkLine 2 (KAttr (Cand Host (Some [10;0;0;1])))). split; [right; right; left; reflexivity | reflexivity].
+Qed.
+
+(* ---- the same over the library function: what the property needs of pion/sdp *)
+Section PionMarshal.
+  Variable pion_marshal : sdesc -> option (list line).
+  (* when Marshal succeeds it writes the lines of the structure, in order (checked on every case) *)
+  Hypothesis marshal_writes : forall d l, pion_marshal d = Some l -> l = marshal d.
+
+  Lemma to_send_lib_observed : forall keep p,
+    to_send_lib pion_marshal keep p =
+    to_send keep (match p with Some d => match pion_marshal (strip_sdesc d) with Some _ => true | None => false end | None => true end) p.
+  Proof.
+    intros keep p. unfold to_send, to_send_lib. destruct keep; [reflexivity|].
+    unfold strip_lines_lib, observed_marshal. destruct p as [d|]; [|reflexivity].
+    destruct (pion_marshal (strip_sdesc d)) as [l|] eqn:E; [|reflexivity].
+    rewrite (marshal_writes _ _ E). reflexivity.
+  Qed.
+
+  Lemma to_send_lib_lines : forall p l, to_send_lib pion_marshal false p = Lines l ->
+    (forall x, In x l -> bad_host_line x = false)
+    /\ exists d, p = Some d /\ l = filter (fun x => negb (bad_host_line x)) (marshal d).
+  Proof. intros p l H. rewrite to_send_lib_observed in H. apply to_send_strips in H. tauto. Qed.
+
+  Lemma to_send_lib_original : forall p, to_send_lib pion_marshal false p = Original ->
+    p = None \/ exists d, p = Some d /\ pion_marshal (strip_sdesc d) = None.
+  Proof.
+    intros p H. rewrite to_send_lib_observed in H. apply to_send_original_iff in H.
+    destruct H as [H|H]; [left; exact H|]. destruct p as [d|]; [|discriminate].
+    right. exists d. split; [reflexivity|]. destruct (pion_marshal (strip_sdesc d)); [discriminate|reflexivity].
+  Qed.
+
+  (* the library contract the first sentence of the property rests on *)
+  Hypothesis marshal_total : forall d, pion_marshal d <> None.
+
+  Lemma to_send_lib_contract : forall p,
+    (to_send_lib pion_marshal false p = Original -> p = None)
+    /\ (forall l, to_send_lib pion_marshal false p = Lines l ->
+          (forall x, In x l -> bad_host_line x = false)
+          /\ exists d, p = Some d /\ l = filter (fun x => negb (bad_host_line x)) (marshal d))
+    /\ (forall d, p = Some d -> to_send_lib pion_marshal false p = Lines (filter (fun x => negb (bad_host_line x)) (marshal d))).
+  Proof.
+    intros p. split; [|split].
+    - intros H. apply to_send_lib_original in H. destruct H as [H|[d [_ H]]]; [exact H|]. exfalso. apply (marshal_total _ H).
+    - apply to_send_lib_lines.
+    - intros d ->. unfold to_send_lib, strip_lines_lib. destruct (pion_marshal (strip_sdesc d)) as [l|] eqn:E.
+      + rewrite (marshal_writes _ _ E), marshal_strip. reflexivity.
+      + exfalso. apply (marshal_total _ E).
+  Qed.
+End PionMarshal.
+
+(* a Marshal that writes the right lines whenever it succeeds, but fails once: the unstripped text goes out *)
+Lemma marshal_contract_needed :
+  let pm := fun d : sdesc => match sd_media d with [m] => match ms_attrs m with [] => None | _ => Some (marshal d) end | _ => Some (marshal d) end in
+  (forall d l, pm d = Some l -> l = marshal d)
+  /\ pm (strip_sdesc leak_witness) = None
+  /\ to_send_lib pm false (Some leak_witness) = Original
+  /\ exists l, In l (marshal leak_witness) /\ bad_host_line l = true.
+Proof.
+  cbv zeta. split; [|split; [reflexivity|split; [reflexivity|apply marshal_failure_leaks]]].
+  intros d l H. destruct (sd_media d) as [|m [|m' ms]]; try (inversion H; reflexivity).
+  destruct (ms_attrs m); [discriminate|inversion H; reflexivity].
+Qed.
+
+Lemma site_cases : forall mok p s, s = to_send false mok p ->
+  (s = Original /\ (p = None \/ mok = false))
+  \/ exists d, mok = true /\ p = Some d /\ s = Lines (filter (fun x => negb (bad_host_line x)) (marshal d))
+               /\ forall x, In x (filter (fun x => negb (bad_host_line x)) (marshal d)) -> bad_host_line x = false.
+Proof.
+  intros mok p s ->. destruct (to_send false mok p) as [|l] eqn:E.
+  - left. split; [reflexivity|]. apply to_send_original_iff. exact E.
+  - right. apply to_send_strips in E. destruct E as (Hm & Hc & d & Hp & Hl). exists d. subst l.
+    split; [exact Hm|]. split; [exact Hp|]. split; [reflexivity|exact Hc].
+Qed.
+
+Lemma client_site : forall cfg ok mok p s, client_offer_sent cfg ok mok p = Some s ->
   (cc_keep cfg = true -> s = Original)
   /\ (cc_keep cfg = false ->
-        (s = Original /\ p = None)
-        \/ exists d, p = Some d /\ s = Lines (filter (fun x => negb (bad_host_line x)) (marshal d))
+        (s = Original /\ (p = None \/ mok = false))
+        \/ exists d, mok = true /\ p = Some d /\ s = Lines (filter (fun x => negb (bad_host_line x)) (marshal d))
                      /\ forall x, In x (filter (fun x => negb (bad_host_line x)) (marshal d)) -> bad_host_line x = false).
 Proof.
-  intros cfg ok p s H. unfold client_offer_sent, channel_keep in H. destruct ok; [|discriminate].
+  intros cfg ok mok p s H. unfold client_offer_sent, channel_keep in H. destruct ok; [|discriminate].
   cbn [option_map] in H. inversion H; subst s. clear H. split; intro Hk; rewrite Hk.
   - reflexivity.
-  - destruct p as [d|].
-    + right. exists d. split; [reflexivity|]. unfold to_send, strip_lines. rewrite marshal_strip. split; [reflexivity|].
-      intros x Hx. apply filter_In in Hx. destruct Hx as [_ Hx]. apply negb_true_iff in Hx. exact Hx.
-    + left. split; reflexivity.
+  - apply site_cases. reflexivity.
 Qed.
 
-Lemma client_site_urls_irrelevant : forall cfg cfg' p,
-  cc_keep cfg = cc_keep cfg' -> client_offer_sent cfg true p = client_offer_sent cfg' true p.
-Proof. intros cfg cfg' p H. unfold client_offer_sent, channel_keep. rewrite H. reflexivity. Qed.
+Lemma client_site_urls_irrelevant : forall cfg cfg' mok p,
+  cc_keep cfg = cc_keep cfg' -> client_offer_sent cfg true mok p = client_offer_sent cfg' true mok p.
+Proof. intros cfg cfg' mok p H. unfold client_offer_sent, channel_keep. rewrite H. reflexivity. Qed.
 
-Lemma proxy_site : forall url ok keep p s, proxy_answer_sent url ok keep p = Some s ->
+Lemma proxy_site : forall url ok keep mok p s, proxy_answer_sent url ok keep mok p = Some s ->
   (keep = true -> s = Original)
   /\ (keep = false ->
-        (s = Original /\ p = None)
-        \/ exists d, p = Some d /\ s = Lines (filter (fun x => negb (bad_host_line x)) (marshal d))
+        (s = Original /\ (p = None \/ mok = false))
+        \/ exists d, mok = true /\ p = Some d /\ s = Lines (filter (fun x => negb (bad_host_line x)) (marshal d))
                      /\ forall x, In x (filter (fun x => negb (bad_host_line x)) (marshal d)) -> bad_host_line x = false).
 Proof.
-  intros url ok keep p s H. unfold proxy_answer_sent, signaling_keep in H. destruct ok; [|discriminate].
+  intros url ok keep mok p s H. unfold proxy_answer_sent, signaling_keep in H. destruct ok; [|discriminate].
   cbn [option_map] in H. inversion H; subst s. clear H. split; intro Hk; subst keep.
   - reflexivity.
-  - destruct p as [d|].
-    + right. exists d. split; [reflexivity|]. unfold to_send, strip_lines. rewrite marshal_strip. split; [reflexivity|].
-      intros x Hx. apply filter_In in Hx. destruct Hx as [_ Hx]. apply negb_true_iff in Hx. exact Hx.
-    + left. split; reflexivity.
+  - apply site_cases. reflexivity.
 Qed.
 
-(* an all-local description is sent WITHOUT its candidates, not with them (there is no fallback
-   to the unstripped text): no line of what is sent is a local host candidate, whatever the input *)
-Lemma sent_never_leaks : forall p l, to_send false p = Lines l -> Forall (fun x => bad_host_line x = false) l.
-Proof. intros p l H. apply Forall_forall. apply (proj1 (to_send_strips p l H)). Qed.
+(* an all-local description is sent WITHOUT its candidates, not with them: no line of what is freshly
+   marshalled is a local host candidate, whatever the input *)
+Lemma sent_never_leaks : forall mok p l, to_send false mok p = Lines l -> Forall (fun x => bad_host_line x = false) l.
+Proof. intros mok p l H. apply Forall_forall. apply (proj1 (proj2 (to_send_strips mok p l H))). Qed.
